@@ -596,7 +596,7 @@ func parenNud(p *parser, t *token) *token {
 }
 
 func notNud(p *parser, t *token) *token {
-	expr := p.doExpression(getSymbol(t).Lbp)
+	expr := p.doExpression(130) // binds tighter than any binary operator
 	t.Append(expr)
 	return t
 }
